@@ -7,7 +7,7 @@ from typing import Dict, List, Optional, Set, Tuple
 from ..cfg import CFG, Edge, Node, build, callee_info
 from ..core import Ctx, construct_key, norm
 from ..load import AnalysisError, Resolver, Scope, dotted, own_nodes, parent
-from ..paths import (find_path, held_locks, must_pass, no_suspension, reach, render)
+from ..paths import (envs_at, find_path, held_locks, must_pass, no_suspension, reach, render)
 from ..sym import (call_name, calls_in, enum_paths, find_calls, is_opaque,
                    method_calls, subst, sym_env)
 from ..dataflow import resolve
@@ -303,7 +303,10 @@ def _atom(r: CacheRoles, n: Node, lv: Set[str]) -> Optional[str]:
     looked-up marker's loop; 'missing' if it tests the looked-up marker for None."""
     if n.kind != 'branch':
         return None
-    t = n.meta['test']
+    return _atom_expr(n.meta['test'], lv)
+
+
+def _atom_expr(t: ast.AST, lv: Set[str]) -> Optional[str]:
     if isinstance(t, ast.Call) and isinstance(t.func, ast.Attribute) and _root_name(t.func.value) in lv and not t.args:
         if t.func.attr == 'is_closed':
             return 'closed'
@@ -339,6 +342,16 @@ def takeover_paths(r: CacheRoles):
     stops = ([r.HEAD] if r.HEAD else [])
     waits = wait_awaits(r)
 
+    from ..paths import walk_env, decisions
+
+    def put(f: Dict[str, bool], a: str, v: bool) -> None:
+        if a == 'missing':
+            f['found'] = not v
+        elif a == '!missing':
+            f['found'] = v
+        else:
+            f[a] = v
+
     def facts(path: List[Edge], found: Optional[bool]) -> Dict[str, bool]:
         f: Dict[str, bool] = {}
         if found is not None:
@@ -346,13 +359,18 @@ def takeover_paths(r: CacheRoles):
         for e in path:
             a = _atom(r, e.src, lv)
             if a and e.label in ('true', 'false'):
-                v = e.label == 'true'
-                if a == 'missing':
-                    f['found'] = not v
-                elif a == '!missing':
-                    f['found'] = v
-                else:
-                    f[a] = v
+                put(f, a, e.label == 'true')
+        # boolean temporaries (`dead = loop.is_closed()` ... `if dead:`): what the path decided about them
+        for tok, val in decisions(walk_env(g, path)).items():
+            if tok[0] != 'v':
+                continue
+            node = g.nodes[tok[1]]
+            v = node.meta.get('value')
+            if isinstance(v, ast.UnaryOp) and isinstance(v.op, ast.Not):
+                v = v.operand
+            a = _atom_expr(v, lv) if v is not None else None
+            if a:
+                put(f, a, val)
         return f
     tm, tw = [], []
     for e, found in starts:
@@ -511,8 +529,9 @@ def c01(ctx: Ctx) -> None:
     for n in other_calls:
         ctx.violation('C01-R5', f'un-awaited/extra call {norm(n.ast)}', _loc(g, n),
                       'second call site of the wrapped function', construct=construct_key(r.wrapper.qualname, n.ast, 'extra'))
+    inlined_here = {n.meta['name'] for n in g.nodes if n.kind == 'inline_enter'}
     for scope in [r.impl] + _descendants(r.impl):
-        if scope is r.wrapper:
+        if scope is r.wrapper or scope.qualname in inlined_here:
             continue
         for x in own_nodes(scope.node):
             if isinstance(x, ast.Call) and isinstance(x.func, ast.Name) and x.func.id == r.wrapped \
@@ -640,7 +659,8 @@ def c05(ctx: Ctx) -> None:
     feasible = lambda e: not (e.label == 'exc' and e.src.id in safe_unmarks)
     for m in r.MARK:
         starts = [e for e in g.succ[m.id]]
-        w = must_pass(g, [], exits, r.WAKE, start_edges=starts, edge_ok=feasible)
+        envs = envs_at(g, m)     # what the path to MARK already decided (e.g. `if do_caching:`)
+        w = must_pass(g, [], exits, r.WAKE, start_edges=starts, edge_ok=feasible, init_envs=envs)
         ctx.check('C05-R1', f'WAKE after MARK {norm(m.ast)}', _loc(g, m), w is None and bool(r.WAKE),
                   detail_ok='event.set() on every exit incl. exception and cancellation edges',
                   detail_bad='an exit of the computing caller does not wake the waiters (they sit out the 60 s timeout)',
@@ -650,7 +670,7 @@ def c05(ctx: Ctx) -> None:
         pres = presence_branches(r)
         gone_edges = {(b.id, lab) for b, lab in pres}
         via = r.UNMARK + [b for b, _ in own]
-        w = must_pass(g, [], exits, via, start_edges=starts,
+        w = must_pass(g, [], exits, via, start_edges=starts, init_envs=envs,
                       edge_ok=lambda e: feasible(e) and (e.src.id, e.label) not in gone_edges)
         ok = w is None and bool(r.UNMARK)
         # each ownership edge must lead to an UNMARK
@@ -998,7 +1018,9 @@ def c14(ctx: Ctx) -> None:
               and isinstance(call.args[0].value, ast.Name) and call.args[0].value.id == va
               and len(call.keywords) == 1 and call.keywords[0].arg is None
               and isinstance(call.keywords[0].value, ast.Name) and call.keywords[0].value.id == kw)
-        reassigned = [n for n in g.nodes if n.kind == 'store_name' and n.meta['name'] in (va, kw)]
+        reassigned = [n for n in g.nodes if n.kind == 'store_name' and n.meta['name'] in (va, kw)
+                      and not (n.meta.get('inlined_param') and isinstance(n.meta.get('value'), ast.Name)
+                               and n.meta['value'].id == n.meta['name'])]
         ctx.check('C14-R3', f'{norm(call)}', _loc(g, c), ok and not reassigned,
                   'called with the very arguments the key was built from',
                   'the value computed does not belong to the key (arguments altered)',
